@@ -104,6 +104,30 @@ example : (pStmts Atom.rd 50 (gStmts ifsStyle Atom.pr Atom.isOne demo)).map
     (fun r => (gStmts ifsStyle Atom.pr Atom.isOne r.1, r.2)) = some (gStmts ifsStyle Atom.pr Atom.isOne demo, []) := by
   decide
 
+/-- `CASE DEFAULT` written first (or in the middle) is read as the default body and the other blocks keep their selectors: the
+reference parser, followed by the printer, moves the block to the end and changes nothing else -/
+example : (pStmts Atom.rd 20
+    [[kw "select", kw "case", .e .lp, kw "n", .e .rp],
+     [kw "case", kw "default"], [kw "r", .assign, .e (.num 9)],
+     [kw "case", .e .lp, .e (.num 1), .comma, .e (.num 2), .e .rp], [kw "r", .assign, .e (.num 10)],
+     [kw "case", .e .lp, .e (.num 5), .e .rp], [kw "r", .assign, .e (.num 20)],
+     [kw "end", kw "select"]]).map (fun r => (gStmts fortranStyle Atom.pr Atom.isOne r.1, r.2)) =
+  some ([[kw "select", kw "case", .e .lp, kw "n", .e .rp],
+     [kw "case", .e .lp, .e (.num 1), .comma, .e (.num 2), .e .rp], [kw "r", .assign, .e (.num 10)],
+     [kw "case", .e .lp, .e (.num 5), .e .rp], [kw "r", .assign, .e (.num 20)],
+     [kw "case", kw "default"], [kw "r", .assign, .e (.num 9)],
+     [kw "end", kw "select"]], []) := by
+  decide
+
+/-- a second `CASE DEFAULT` is rejected -/
+example : (pStmts Atom.rd 20
+    [[kw "select", kw "case", .e .lp, kw "n", .e .rp],
+     [kw "case", kw "default"], [kw "r", .assign, .e (.num 9)],
+     [kw "case", .e .lp, .e (.num 1), .e .rp], [kw "r", .assign, .e (.num 10)],
+     [kw "case", kw "default"], [kw "r", .assign, .e (.num 8)],
+     [kw "end", kw "select"]]).isNone = true := by
+  decide
+
 /-- the normal form differs from the written IR exactly in the dropped step -/
 example : normStmts Atom.isOne [Stmt.doLoop "i" (Atom.num 1) (.var "n") (some (.num 1)) []] =
     [Stmt.doLoop "i" (Atom.num 1) (.var "n") none []] := rfl
